@@ -448,7 +448,7 @@ def run(tier, seed):
                     bad_imm = [(w[0], w[1], int(x)) for w, x in zip(WATCH, ws) if w[2] and int(x) != w[1]]
                     if bad_imm:
                         pay["immutable_cells_changed"] = bad_imm
-                        v.failing("immutable-write-accepted:%s:assign" % arm_class(c), pay)
+                        v.failing("immutable-cell-changed-at-run-time:%s" % arm_class(c), pay)
                         continue
                     # the write must be visible through the canonical alias and nowhere else
                     exp = {w[0]: w[1] for w in WATCH}
